@@ -144,6 +144,7 @@ V2_Leafs(t) ==
     SelA("", "g", <<Arg("lni", ListV(<<Va>>))>>),
     SelA("", "g", <<Arg("lin", ObjL(<<OF("r", Va)>>))>>),
     SelA("", "g", <<Arg("lli", ListV(<<Va>>))>>),
+    SelA("", "gnli", <<Arg("nli", ListV(<<Va, I1>>))>>),       \* an item of a list literal in a NON-NULL list position
     SelA("", "zz", <<Arg("y", Va)>>) }
 V2_Dirs ==
   { <<>>, <<DirX("skip", <<Arg("if", Va)>>)>>, <<DirX("unknown", <<Arg("y", Va)>>)>> }
